@@ -102,6 +102,15 @@ class Rig(object):
                 keep = ch[ch >= 0]
                 if len(keep) and not np.array_equal(m.get_waveforms([sid], keep)[0], direct[:, :len(keep)]):
                     ok = False
+            # a request mixing stored and non-stored spikes falls back to the raw data
+            others = np.setdiff1d(np.arange(m.n_spikes), np.asarray(sw.spike_ids))
+            if len(others) and len(np.asarray(sw.spike_ids)):
+                mix = np.array([int(np.asarray(sw.spike_ids)[0]), int(others[0])])
+                chs = np.arange(min(2, m.n_channels))
+                direct = extract_waveforms(m.traces, m.spike_samples[mix], chs,
+                                           n_samples_waveforms=m.n_samples_waveforms)
+                if not np.array_equal(m.get_waveforms(mix, chs), direct):
+                    ok = False
             obs['storeEqualsRaw'] = ok
         return obs
 
